@@ -31,15 +31,19 @@ ASSUMPTIONS = ["k-mer codes, positions and reference ids are unbounded naturals 
                "is not modelled; the generator keeps n^k < 2^63 and positions < 2^32)",
                "MincodeSelector threshold is compared exactly (rational) in the model; float64 rounding of the "
                "threshold for |code| > 2^53 is not modelled"]
-LEVEL_TEXT = ("proof for all inputs (Lean 4, no size bound): the two-pass fill never writes beyond the counted capacity "
-              "and yields exactly the per-slot filter of the inserted items (direct and bucketed, any n_buckets >= 1); "
-              "match / match_kmer_selection / count / the per-k-mer scan return exactly the stored entries with an equal "
-              "k-mer, unmasked; from_kmer_selection and mkTable (core of from_kmers/from_sequences) are exact; merge = "
-              "concatenation; contiguous mask; syncmer offset filter; min-code threshold. PARTIAL: the minimizer "
-              "(chunk-wise arg-cum-min = leftmost window minimum), pickle round trip, rolling k-mer codes and "
-              "from_positions are modelled and tied by correspondence + brute-force oracle but not proved for all "
-              "inputs; ScoreThresholdRule is oracle-only. Five .pyx defects are modelled as written (_defect witnesses) "
-              "and listed as known findings.")
+LEVEL_TEXT = ("proof for all inputs (Lean 4, no size bound, no sorry): the two-pass fill never writes beyond the counted "
+              "capacity and yields exactly the per-slot filter of the inserted items (direct and bucketed, any "
+              "n_buckets >= 1); from_kmers, from_kmer_selection, from_sequences (rolling / spaced k-mer codes = fuse "
+              "of every window, for every alphabet the constructor accepts), from_positions and from_tables yield "
+              "the canonical table of their input; match / match_kmer_selection / match_table (join over equal "
+              "k-mers) / count / count() / get_kmers membership / the per-k-mer scan return exactly the stored "
+              "entries with an equal k-mer, unmasked; pickle round trip on the word layout; contiguous mask; "
+              "minimizer for every window >= 1 and all keys < INT64_MAX (forward/reverse arg-cum-min = leftmost "
+              "window minimum, dedup as in the code); syncmer selection on top of it; min-code threshold. PARTIAL: "
+              "BucketKmerTable.__getitem__ only for k-mer codes < 2^32 (defect witness otherwise); min-code with a "
+              "non-identity permutation and float64 threshold rounding, ascending order of get_kmers, "
+              "CachedSyncmerSelector and ScoreThresholdRule are tied by correspondence / brute-force oracle only. "
+              "Five .pyx defects are modelled as written (_defect witnesses) and listed as known findings.")
 LEVEL_NOTE = ("ScoreThresholdRule.similar_kmers, numpy and pickle are exercised (oracle / correspondence), not proved; "
               "C memory safety beyond the proved capacity invariant is trusted")
 TECHNIQUE = "Lean 4 proof (induction over the insertion sequence with a per-slot invariant) + correspondence"
